@@ -97,11 +97,11 @@ pub fn cgr_event(bytes: &[u8], size: u64, res: Option<&Vec<(f64, f64)>>, src: &s
                 flat.push(numerator(*x, size, b).map(|v| v as i64).unwrap_or(-1));
                 flat.push(numerator(*y, size, b).map(|v| v as i64).unwrap_or(-1));
             }
-            let mut tops: Vec<Vec<u8>> = Vec::new();
+            // beyond the exact phase: the top 20 bits of each coordinate, as one integer each
+            let num = |bits: Vec<u8>| bits.iter().fold(0u64, |a, &b| a * 2 + b as u64);
+            let mut tops: Vec<Vec<u64>> = Vec::new();
             for (x, y) in pts.iter().skip(nexact) {
-                let mut t = top_bits(*x, size, 20);
-                t.extend(top_bits(*y, size, 20));
-                tops.push(t);
+                tops.push(vec![num(top_bits(*x, size, 20)), num(top_bits(*y, size, 20))]);
             }
             println!("{}", json!({"ev":"cgr","src":src,"s":size,"bytes":bytes,"err":0,"npts":n,"nexact":nexact,"pts":flat,"tops":tops}));
         }
@@ -109,6 +109,11 @@ pub fn cgr_event(bytes: &[u8], size: u64, res: Option<&Vec<(f64, f64)>>, src: &s
 }
 
 fn gen_cgr_seq(rng: &mut Rng, i: usize, maxlen: usize) -> Vec<u8> {
+    if i == 13 && maxlen >= 1000 {
+        // one sequence far longer than any plausible internal block size
+        let cls: Vec<u8> = (0..70_000).map(|_| rng.below(4) as u8).collect();
+        return render(&cls, rng, true);
+    }
     let len = match i % 9 {
         0 => rng.below(4) as usize,
         1 => rng.range(25, 35) as usize,
